@@ -204,12 +204,20 @@ class HandlerEval:
         interp = self.env.interp()
         kinds = set(self.kf.expr_kinds)
 
+        decorated = [d for d in fn.decorator_list if ast.unparse(d) not in ("staticmethod", "classmethod", "property")]
+
         def setup(it):
             args: List[V] = [NodeV(f"args[{i}]", kinds) for i in range(nargs)]
             kwargs = {n: NodeV(f"kwargs[{n}]", kinds) for n in named}
             it._cur_args = args
+            if decorated:
+                # evaluate through the decorators: a thin trampoline function calls the decorated method
+                it._deco_target = (ci.module, fn, [ObjV(vcls, {}, "self")] + args, kwargs, ci.qual)
+                return ci.module, _TRAMPOLINE, [], {}, None
             return ci.module, fn, [ObjV(vcls, {}, "self")] + args, kwargs, ci.qual
 
+        if decorated:
+            interp.func_overrides = dict(getattr(interp, "func_overrides", {}) or {})
         paths = interp.explore(setup)
         for p in paths:
             p.entry["handler"] = f"{ci.qual}.{fn.name}"
@@ -226,6 +234,9 @@ class HandlerEval:
         n = len(params) - 1  # self
         nd = len(a.defaults)
         return n - nd, (None if a.vararg else n), a.kwarg is not None
+
+
+_TRAMPOLINE = ast.parse("def __trampoline__():\n    return __call_decorated__()\n").body[0]
 
 
 def get(env) -> HandlerEval:
